@@ -1,10 +1,11 @@
 #!/usr/bin/env python3
 """usage: tools_mut.py <prop> <mutfile>
 mutfile: blocks separated by lines '====', each block: first line 'name|relative/file.go', then OLD text, a line '----', NEW text.
-Applies each textual change to /repo (must be committed/clean), checks it compiles, runs ./check <prop>, reverts."""
+Applies each textual change to /repo (or to the copy named by VERIF_REPO), checks it compiles, runs ./check <prop>, reverts."""
 import sys, subprocess, os
 prop, mf = sys.argv[1], sys.argv[2]
 env = dict(os.environ, GOFLAGS='-mod=mod', GOPROXY='off', GOSUMDB='off', GOTOOLCHAIN='local')
+REPO = os.environ.get('VERIF_REPO', '/repo')
 blocks = open(mf).read().split('\n====\n')
 caught = missed = 0
 for b in blocks:
@@ -13,13 +14,13 @@ for b in blocks:
     head, rest = b.split('\n', 1)
     name, f = head.split('|')
     old, new = (rest + '\n').split('\n----\n'); new = new.rstrip('\n')
-    p = os.path.join('/repo', f)
+    p = os.path.join(REPO, f)
     src = open(p).read()
     if src.count(old) != 1:
         print(f'{name}: OLD text found {src.count(old)} times, skipped'); continue
     open(p, 'w').write(src.replace(old, new))
     try:
-        r = subprocess.run(['go', 'build', './...'], cwd='/repo', env=env, capture_output=True, text=True)
+        r = subprocess.run(['go', 'build', './...'], cwd=REPO, env=env, capture_output=True, text=True)
         if r.returncode != 0:
             print(f'{name}: does not compile: {r.stderr[:300]}'); continue
         r = subprocess.run(['./check', prop], cwd='/verif', env=env, capture_output=True, text=True, timeout=1500)
@@ -33,4 +34,5 @@ for b in blocks:
     finally:
         open(p, 'w').write(src)
 print(f'caught={caught} missed={missed}')
-subprocess.run(['git', '-C', '/repo', 'status', '--short'])
+if REPO == '/repo':
+    subprocess.run(['git', '-C', '/repo', 'status', '--short'])
